@@ -63,6 +63,10 @@ pub struct LaneSpec {
     pub out_buf: usize,
     /// Initial body of a value lane (unique).
     pub initial: Bytes,
+    /// Not registered while the agent initialises: the running agent registers it (`AgentContext::add_lane`,
+    /// handled by the running write task) when the script says so, and the lane withholds the `Initialized`
+    /// acknowledgement of its handshake until it is told to give it (`LaneCtl::AckInit` / `Stall(false)`).
+    pub late: bool,
 }
 
 impl LaneSpec {
@@ -117,6 +121,8 @@ pub enum LaneCtl {
     /// Map lane: emit an update (`value` given) or a remove whose key bytes are not valid UTF-8. No Recon
     /// text can be such a key, so the lane's own map (the reference for the replicas) is left as it is.
     MapBadKey { key: Bytes, value: Option<String> },
+    /// A lane registered at run time gives the `Initialized` acknowledgement it has been withholding.
+    AckInit,
 }
 
 #[derive(Clone, Debug)]
@@ -196,6 +202,10 @@ pub struct LaneRec {
     pub refused: u64,
     /// Supply items fully emitted (count), for reporting.
     pub supplied: u64,
+    /// Lanes registered at run time: ticket before `add_lane` was called, ticket when it handed the channels over.
+    pub reg_requested: Option<u64>,
+    pub registered: Option<u64>,
+    pub reg_error: Option<String>,
 }
 
 pub type SharedLane = Arc<Mutex<LaneRec>>;
@@ -270,6 +280,10 @@ struct Lane {
     pending: VecDeque<PendingSync>,
     current: Bytes,
     map: Vec<(Value, String, String)>,
+    /// A lane registered at run time that has not yet acknowledged its initialisation: it withholds
+    /// `Initialized` (`init_pending`: the runtime has asked for it) and does nothing else meanwhile.
+    hold_init: bool,
+    init_pending: bool,
 }
 
 impl Lane {
@@ -470,6 +484,21 @@ impl Lane {
     }
 
     async fn handle_ctl(&mut self, c: LaneCtl) {
+        if self.hold_init {
+            // before the handshake is over the lane may only write `Initialized`
+            match c {
+                LaneCtl::AckInit | LaneCtl::Stall(false) => {
+                    if self.init_pending {
+                        self.init_pending = false;
+                        self.hold_init = false;
+                        self.write_frame(Emitted::Initialized).await;
+                    }
+                }
+                LaneCtl::SyncMode(m) => self.mode = m,
+                _ => {}
+            }
+            return;
+        }
         match c {
             LaneCtl::Set(b) => {
                 if matches!(self.spec.kind, LK::Value | LK::Command) {
@@ -517,6 +546,7 @@ impl Lane {
                     self.write_frame(Emitted::BadKey { key, value }).await;
                 }
             }
+            LaneCtl::AckInit => {}
         }
         self.after_input().await;
     }
@@ -541,6 +571,10 @@ impl Lane {
                 }
             }
             Received::InitComplete => {
+                if self.hold_init {
+                    self.init_pending = true;
+                    return;
+                }
                 self.write_frame(Emitted::Initialized).await;
             }
         }
@@ -606,8 +640,9 @@ pub fn supply_body(lane: usize, n: u64, pad: usize) -> Bytes {
 pub struct RawAgent {
     pub specs: Vec<LaneSpec>,
     pub shared: Arc<AgentShared>,
-    /// Taken by the (single) run of the agent.
-    pub ctl: Mutex<Option<(Vec<mpsc::UnboundedReceiver<LaneCtl>>, oneshot::Receiver<bool>)>>,
+    /// Taken by the (single) run of the agent: lane controls, the scripted return of the agent future, and the
+    /// indices of the late lanes the running agent is to register.
+    pub ctl: Mutex<Option<(Vec<mpsc::UnboundedReceiver<LaneCtl>>, oneshot::Receiver<bool>, mpsc::UnboundedReceiver<usize>)>>,
     pub jitter: Mutex<Option<(Rng, u64)>>,
 }
 
@@ -635,11 +670,16 @@ impl Agent for RawAgent {
         let taken = self.ctl.lock().take();
         let jitter = self.jitter.lock().take();
         async move {
-            let Some((ctls, return_rx)) = taken else {
+            let Some((ctls, return_rx, mut agent_ctl)) = taken else {
                 return Err(AgentInitError::FailedToStart);
             };
             let mut lanes = vec![];
+            let mut late: Vec<Option<(usize, LaneSpec, mpsc::UnboundedReceiver<LaneCtl>)>> = vec![];
             for (idx, (spec, ctl)) in specs.into_iter().zip(ctls).enumerate() {
+                if spec.late {
+                    late.push(Some((idx, spec, ctl)));
+                    continue;
+                }
                 let conf = LaneConfig {
                     input_buffer_size: std::num::NonZeroUsize::new(spec.in_buf.max(1)).unwrap(),
                     output_buffer_size: std::num::NonZeroUsize::new(spec.out_buf.max(1)).unwrap(),
@@ -658,6 +698,7 @@ impl Agent for RawAgent {
                 };
                 let rec = shared.lanes[idx].clone();
                 rec.lock().versions.push((ticket(), spec.initial.clone()));
+                rec.lock().registered = Some(ticket());
                 let mut lane = Lane {
                     idx,
                     current: spec.initial.clone(),
@@ -671,6 +712,8 @@ impl Agent for RawAgent {
                     mode: SyncMode::Atomic,
                     pending: VecDeque::new(),
                     map: vec![],
+                    hold_init: false,
+                    init_pending: false,
                 };
                 if lane.spec.needs_init() {
                     // Initialisation handshake: the runtime replays the stored state (nothing here)
@@ -692,7 +735,83 @@ impl Agent for RawAgent {
                 }
                 lanes.push(lane);
             }
-            let task = async move {
+            let has_late = !late.is_empty();
+            let boxed_task: BoxFuture<'static, Result<(), AgentTaskError>> = if has_late { async move {
+                // Lanes that the running agent registers when the script says so, next to the lanes that exist.
+                let mut running = futures::stream::FuturesUnordered::new();
+                for l in lanes {
+                    running.push(l.run().boxed());
+                }
+                let mut return_rx = return_rx;
+                let mut ctl_open = true;
+                loop {
+                    tokio::select! {
+                        biased;
+                        r = &mut return_rx => {
+                            return match r {
+                                Ok(ok) => {
+                                    *shared.returned.lock() = Some((ticket(), ok));
+                                    if ok { Ok(()) } else { Err(AgentTaskError::UserCodeError(Box::new(ScriptedFailure))) }
+                                }
+                                Err(_) => futures::future::pending().await,
+                            };
+                        }
+                        c = agent_ctl.recv(), if ctl_open => {
+                            let Some(want) = c else { ctl_open = false; continue };
+                            let Some((idx, spec, ctl)) = late.iter_mut().find(|l| l.as_ref().map_or(false, |l| l.0 == want)).and_then(|l| l.take()) else { continue };
+                            let conf = LaneConfig {
+                                input_buffer_size: std::num::NonZeroUsize::new(spec.in_buf.max(1)).unwrap(),
+                                output_buffer_size: std::num::NonZeroUsize::new(spec.out_buf.max(1)).unwrap(),
+                                transient: spec.transient,
+                            };
+                            let rec = shared.lanes[idx].clone();
+                            rec.lock().reg_requested = Some(ticket());
+                            let add = context.add_lane(&spec.name, spec.kind.warp(), conf);
+                            running.push(async move {
+                                let (tx, rx) = match add.await {
+                                    Ok(io) => io,
+                                    Err(e) => {
+                                        rec.lock().reg_error = Some(format!("add_lane {}: {e}", spec.name));
+                                        return;
+                                    }
+                                };
+                                let (wr, rd) = match spec.kind {
+                                    LK::Map => (Wr::Map(FramedWrite::new(tx, Default::default())), Rd::Map(FramedRead::new(rx, Default::default()))),
+                                    _ => (Wr::Value(FramedWrite::new(tx, Default::default())), Rd::Value(FramedRead::new(rx, Default::default()))),
+                                };
+                                {
+                                    let mut g = rec.lock();
+                                    g.versions.push((ticket(), spec.initial.clone()));
+                                    g.registered = Some(ticket());
+                                }
+                                let hold = spec.needs_init();
+                                let lane = Lane {
+                                    idx,
+                                    current: spec.initial.clone(),
+                                    spec,
+                                    rec,
+                                    wr: Some(wr),
+                                    rd: Some(rd),
+                                    ctl,
+                                    ctl_open: true,
+                                    stalled: false,
+                                    mode: SyncMode::Atomic,
+                                    pending: VecDeque::new(),
+                                    map: vec![],
+                                    hold_init: hold,
+                                    init_pending: false,
+                                };
+                                lane.run().await
+                            }.boxed());
+                        }
+                        x = running.next(), if !running.is_empty() => {
+                            if x.is_some() && running.is_empty() {
+                                return Ok(());
+                            }
+                        }
+                    }
+                }
+            }.boxed() } else { async move {
                 // The context must stay alive for as long as the agent runs: dropping it stops the runtime.
                 let _context = context;
                 let all = futures::future::join_all(lanes.into_iter().map(|l| l.run()));
@@ -709,10 +828,11 @@ impl Agent for RawAgent {
                         }
                     }
                 }
-            };
+            }.boxed() };
+            let task = boxed_task;
             let boxed: BoxFuture<'static, Result<(), AgentTaskError>> = match jitter {
                 Some((rng, per_mille)) if per_mille > 0 => Jitter::new(task, rng, per_mille).boxed(),
-                _ => task.boxed(),
+                _ => task,
             };
             Ok(boxed)
         }
